@@ -78,6 +78,23 @@ def bound_scenario(rng, negative_dvalue=False):
     return sc
 
 
+def mutually_reachable(sc):
+    """every ordered pair among internet + sensitive subnets is connected by a directed path
+    (otherwise some permutation sums two int16 infinities and wraps around: not modelled)"""
+    n = len(sc.topology)
+    visit = [0] + sorted({a[0] for a in sc.sensitive_hosts})
+    for src in visit:
+        seen = {src}; todo = [src]
+        while todo:
+            x = todo.pop()
+            for y in range(n):
+                if sc.topology[x][y] == 1 and y not in seen:
+                    seen.add(y); todo.append(y)
+        if any(v not in seen for v in visit):
+            return False
+    return True
+
+
 def in_domain(sc, env):
     acts = env.action_space.actions
     if any(a.cost < 1 for a in acts):
@@ -154,7 +171,7 @@ def run_case(args):
         hops_m, ub_m = [int(x) for x in out[0].split()]
         res["hops"] = hops_i
         desc = scen_gen.describe(sc) if len(sc.hosts) <= 12 else dict(kind=kind, hosts=len(sc.hosts))
-        if hops_m >= 32767:
+        if hops_m >= 32767 or not mutually_reachable(sc):
             # a sensitive subnet that cannot be reached at all: the implementation's int16 arithmetic
             # wraps around; outside the model (and outside the property: no episode reaches the goal)
             res["out_of_model"] = True
